@@ -131,7 +131,7 @@ Print Assumptions C10_no_reload_after_lock.
 (* non-vacuity: a schedule in which the second child, added by a growth reload beyond the initial
    channel capacity, fails; Run() takes the failure and returns ErrRunnableFailed joined with it *)
 Definition ex_pool : params :=
-  mkParams [mkSpec 0 UntilRunDone Free RWC; mkSpec 1 NonBlocking Free RWC] true true true true.
+  mkParams [mkSpec 0 UntilRunDone Free RWC; mkSpec 1 NonBlocking Free RWC] true true true true true.
 Definition ex_sched : list label :=
   [LRunCall; LRunBegin; LBootLock ORun; LCb ORun (CbSome [(0, 0)]%N); LBootLaunch ORun; LToRunning;
    LKRun 0 0%N;
@@ -180,7 +180,7 @@ Print Assumptions C10_run_returns_measure.
    fails): the failure is taken after 11 labels; the remaining 13 labels are system steps, the
    measure goes from 15 to 0 and Run() has returned the wrapped failure *)
 Definition m_pool : params :=
-  mkParams [mkSpec 0 UntilRunDone OnSignal RWC; mkSpec 1 UntilRunDone Free RWC] true true true true.
+  mkParams [mkSpec 0 UntilRunDone OnSignal RWC; mkSpec 1 UntilRunDone Free RWC] true true true true true.
 Definition m_sched : list label :=
   [LRunCall; LRunBegin; LBootLock ORun; LCb ORun (CbSome [(0, 0); (1, 0)]%N); LBootLaunch ORun; LToRunning;
    LKRun 0 0%N; LKRun 1 1%N;
